@@ -4,4 +4,10 @@ from . import disp_common
 TRUSTED_BASE = disp_common.TRUSTED_BASE
 ASSUMPTIONS = disp_common.ASSUMPTIONS
 RULE = disp_common.RULE
-COMPONENTS = [disp_common.component("c13", name="disp")]
+from . import dispgen
+
+# every pending connect is accounted for (c13_pending_ok, Sock/DispC13_Pred.v): evaluated on the shared dispatcher
+# scenarios and on scenarios built around it (several connects pending to one address, an earlier one leaves, more connects)
+_PENDING = disp_common.component("c13p", name="disp_pending")
+_PENDING["gen"] = dispgen.gen_pending
+COMPONENTS = [disp_common.component("c13", name="disp"), _PENDING]
